@@ -160,7 +160,7 @@ impl<const N: u32> PxE2<{ N }> {
                     exp += 1;
                 }
 
-                let frac_length = (N - 4) as isize - (reg as isize);
+                let frac_length = (N as isize) - 4 - (reg as isize);
 
                 if frac_length < 0 {
                     //in both cases, reg=29 and 30, e is n+1 bit and frac are sticky bits
@@ -239,7 +239,7 @@ impl<const N: u32> PxE2<{ N }> {
                 exp += 1;
             }
 
-            let frac_length = (N - 4) as isize - (reg as isize);
+            let frac_length = (N as isize) - 4 - (reg as isize);
             if frac_length < 0 {
                 //in both cases, reg=29 and 30, e is n+1 bit and frac are sticky bits
                 if reg == N - 3 {
